@@ -238,6 +238,8 @@ func (c *concReader) Read(p []byte) (int, error) {
 				return numRead, err
 			}
 			c.currWork = c.nextWork()
+			// The new work may be empty, or an error with no buffer at all.
+			continue
 		}
 
 		// Fill p from c.currWork.
@@ -433,6 +435,12 @@ func runRManager(stopc <-chan stopWork, roic <-chan Range, reqc chan<- rWork, ch
 	roi := Range{}
 	work := rWork{}
 
+	// errPos is the DSpace position that keys an error-only rWork: where the
+	// concReader will be after consuming all of the work sent so far. The
+	// concReader looks up completed works by position, so an error that was
+	// not keyed by that position would never be found.
+	errPos := int64(0)
+
 loop:
 	for {
 		select {
@@ -452,11 +460,12 @@ loop:
 
 		case roi = <-input:
 			input, output = nil, reqc
+			errPos = roi[0]
 			if err := chunkReader.SeekToChunkContaining(roi[0]); err != nil {
 				if err == io.EOF {
 					err = io.ErrUnexpectedEOF
 				}
-				work = rWork{err: err}
+				work = rWork{err: err, dRange: Range{errPos, errPos}}
 				continue loop
 			}
 
@@ -475,7 +484,7 @@ loop:
 				input, output = roic, nil
 				continue loop
 			} else if err != nil {
-				work = rWork{err: err}
+				work = rWork{err: err, dRange: Range{errPos, errPos}}
 				continue loop
 			}
 
@@ -485,6 +494,7 @@ loop:
 			}
 			if dr := chunk.DRange.Intersect(roi); !dr.Empty() {
 				work = rWork{dRange: dr}
+				errPos = dr[1]
 				continue loop
 			}
 		}
